@@ -1247,12 +1247,44 @@ func (x *Exec) prunePC(s *State) {
 		}
 		symsIn(k, tmp)
 		for n := range tmp {
-			if !live[n] && !x.keepSym(n) {
+			if !x.symAlive(n, live, 0) {
 				delete(s.PC, k)
 				break
 			}
 		}
 	}
+}
+
+// symAlive: a symbol is worth keeping facts about if something live mentions
+// it, if it belongs to the root's inputs, or if it is the content of a location
+// that can be read again because the location itself is still addressable.
+func (x *Exec) symAlive(n string, live map[string]bool, depth int) bool {
+	if live[n] || x.keepSym(n) {
+		return true
+	}
+	if depth > 4 {
+		return false
+	}
+	for _, pre := range []string{"@", "j@", "w@"} {
+		if strings.HasPrefix(n, pre) {
+			loc, ok := x.LocOf[n[len(pre):]]
+			if !ok || strings.HasPrefix(loc, "A:") {
+				return false
+			}
+			tmp := map[string]bool{}
+			symsIn(loc, tmp)
+			if len(tmp) == 0 {
+				return strings.HasPrefix(loc, "G:") || strings.HasPrefix(loc, "fv:")
+			}
+			for m := range tmp {
+				if m == n || !x.symAlive(m, live, depth+1) {
+					return false
+				}
+			}
+			return true
+		}
+	}
+	return false
 }
 
 // keepSym: facts about the root's parameters and about the initial contents of
